@@ -26,9 +26,11 @@ def run(ctx):
     ctx.tlc("errio", "Gen_FramedIo", "Gen_FramedIo.%s.cfg" % t, cases_to=fc)
     res = ctx.replay("framed", fc, timeout=3000)
     ctx.judge("framed", fc, res)
-    cuts = sum((r.get("info") or {}).get("cuts", 0) for r in res)
-    faults = sum((r.get("info") or {}).get("faults", 0) for r in res)
-    mism = sum(1 for r in res if (r.get("info") or {}).get("spec_offsets_match") is False)
+    def info(r):
+        return r.get("info") if isinstance(r.get("info"), dict) else {}
+    cuts = sum(info(r).get("cuts", 0) for r in res)
+    faults = sum(info(r).get("faults", 0) for r in res)
+    mism = sum(1 for r in res if info(r).get("spec_offsets_match") is False)
     ctx.notes.update({"cut_positions_replayed": cuts, "fault_positions_replayed": faults,
                       "streams_whose_layout_differs_from_spec_prediction_info_only": mism})
     ctx.evaluations += cuts + faults
